@@ -194,19 +194,39 @@ func C20(c *Ctx) {
 
 	// R20.3
 	if lr := c.fn("R20.3", "pkg/order/etcdraft.(*Node).listenRaftMsg"); lr != nil {
-		je := condEdges(lr, func(f core.Fact, ifi *ssa.If) (bool, int) {
-			if f.Kind == core.FBool && f.Field == "justElected" {
-				return true, holdsEdge(f)
-			}
-			return false, 0
-		})
-		n := c.behindEdges("R20.3", "listenRaftMsg", lr, je, func(in ssa.Instruction) bool {
+		jeEdges := func(fn *ssa.Function) core.EdgeSet {
+			return condEdges(fn, func(f core.Fact, ifi *ssa.If) (bool, int) {
+				if f.Kind == core.FBool && f.Field == "justElected" {
+					return true, holdsEdge(f)
+				}
+				return false, 0
+			})
+		}
+		isReset := func(in ssa.Instruction) bool {
 			call, ok := in.(ssa.CallInstruction)
 			if !ok || core.CalleeObj(call) == nil || core.CalleeObj(call).Name() != "SetBatchSeqNo" {
 				return false
 			}
 			return core.Mentions(core.Arg(call, 0), fieldNamed("lastExec"))
-		}, "justElected", "SetBatchSeqNo(lastExec)")
+		}
+		n := c.behindEdges("R20.3", "listenRaftMsg", lr, jeEdges(lr), isReset, "justElected", "SetBatchSeqNo(lastExec)")
+		// or in a helper of the node that the Ready handling calls: the reset lies behind justElected there, or
+		// every call of the helper lies behind justElected
+		for _, call := range core.Calls(lr) {
+			g := core.StaticCallee(call)
+			if g == nil || g == lr || len(g.Blocks) == 0 || core.PkgOf(g) != core.PkgOf(lr) || len(sites(g, isReset)) == 0 {
+				continue
+			}
+			if je := jeEdges(g); je.Len() > 0 {
+				n += c.behindEdges("R20.3", shortFn(g), g, je, isReset, "justElected", "SetBatchSeqNo(lastExec)")
+				continue
+			}
+			isCallG := func(in ssa.Instruction) bool {
+				cc, ok := in.(ssa.CallInstruction)
+				return ok && core.StaticCallee(cc) == g
+			}
+			n += c.behindEdges("R20.3", "listenRaftMsg", lr, jeEdges(lr), isCallG, "justElected", shortFn(g)+" (which resets the batch sequence number to lastExec)")
+		}
 		r.Floor("R20.3", "leader reset sites", n, 1)
 	}
 	nGen := 0
